@@ -42,3 +42,11 @@ ASSUMPTIONS = {
 }
 
 NOT_EXERCISED = {}
+
+# probes that a full-budget batch must reach (checked by `selftest reach`)
+REQUIRED_PROBES = {
+    "C15": ["batch_1", "batch_gt_n", "cond", "remainder_skipped", "val_single_batch", "perm_seam_checked"],
+    "C16": ["early_stop_hit", "best_not_last", "best_not_first", "tie_at_min", "nan_in_val", "inf_in_val", "max_epochs_0",
+            "patience_0", "multi_val_batches", "multi_train_batches", "vi_steps_0", "nan_in_losses", "inf_in_losses", "ran_to_max"],
+}
+OPTIONAL_FAULTS = {"C15": ["loss_tie_at_min", "degenerate_zero_epochs_or_steps"]}
